@@ -15,6 +15,7 @@ import (
 	"github.com/tdakkota/docker-logql/internal/logql"
 	"github.com/tdakkota/docker-logql/internal/logql/logqlengine"
 	"github.com/tdakkota/docker-logql/internal/logstorage"
+	"github.com/tdakkota/docker-logql/internal/otelstorage"
 	"github.com/tdakkota/docker-logql/verifharness/dl"
 	"github.com/tdakkota/docker-logql/verifharness/evid"
 	"github.com/tdakkota/docker-logql/verifharness/fakedocker"
@@ -48,6 +49,51 @@ type c04Out struct {
 	ctr  string
 	ts   int64
 	body string
+	// attrs renders the record's own (non-resource) attributes, sorted.
+	attrs string
+}
+
+func c04Attrs(r logstorage.Record) string {
+	var parts []string
+	for _, a := range []otelstorage.Attrs{r.Attrs, r.ScopeAttrs} {
+		m := a.AsMap()
+		if m == (pcommon.Map{}) {
+			continue
+		}
+		m.Range(func(k string, v pcommon.Value) bool {
+			parts = append(parts, k+"="+v.AsString())
+			return true
+		})
+	}
+	sort.Strings(parts)
+	return strings.Join(parts, ";")
+}
+
+// c04Solo reads container i alone (the path without a merge) on a fresh Querier.
+func c04Solo(c C04Case, i int) ([]c04Out, error) {
+	d := &fakedocker.Daemon{}
+	for k := range c.Ctrs {
+		d.Containers = append(d.Containers, c04Ctr(c, k))
+	}
+	q, _ := dockerlog.NewQuerier(d)
+	name := fmt.Sprintf("c%d", i)
+	m := logql.LabelMatcher{Label: "container", Op: logql.OpEq, Value: name}
+	it, err := q.SelectLogs(context.Background(), pcommon.Timestamp(1), pcommon.Timestamp(1<<62), logqlengine.SelectLogsParams{Labels: []logql.LabelMatcher{m}})
+	if err != nil {
+		return nil, err
+	}
+	var (
+		out []c04Out
+		r   logstorage.Record
+	)
+	for it.Next(&r) {
+		id, _ := r.ResourceAttrs.AsMap().Get("container_id")
+		out = append(out, c04Out{ctr: id.AsString(), ts: int64(r.Timestamp), body: r.Body, attrs: c04Attrs(r)})
+	}
+	err = it.Err()
+	_ = it.Close()
+	d.Done()
+	return out, err
 }
 
 func permutations(n int) [][]int {
@@ -89,7 +135,7 @@ func c04Run(c C04Case, order []int) ([]c04Out, error, fakedocker.Report) {
 	)
 	for it.Next(&r) {
 		id, _ := r.ResourceAttrs.AsMap().Get("container_id")
-		out = append(out, c04Out{ctr: id.AsString(), ts: int64(r.Timestamp), body: r.Body})
+		out = append(out, c04Out{ctr: id.AsString(), ts: int64(r.Timestamp), body: r.Body, attrs: c04Attrs(r)})
 		if len(out) > 100000 {
 			break
 		}
@@ -254,6 +300,28 @@ func c04Check(c C04Case) (r evid.Result) {
 				}
 			}
 		}
+		// (e) a record of the merged stream is the record its container delivers when it is read
+		// alone: the same attributes too, not those of a neighbour in the merge.
+		if oi == 0 && n >= 2 {
+			pos := make([]int, n)
+			solo := make([][]c04Out, n)
+			for i := 0; i < n; i++ {
+				var err error
+				if solo[i], err = c04Solo(c, i); err != nil {
+					r.Violation = evid.Viol("C04/error", "reading container %d alone: %v", i, err)
+					return r
+				}
+			}
+			for k, o := range out {
+				var idx int
+				fmt.Sscanf(o.ctr, "id%d", &idx)
+				if pos[idx] < len(solo[idx]) && solo[idx][pos[idx]] != o {
+					r.Violation = evid.Viol("C04/record-differs-from-solo-read", "%s: merged record %d %+v, the same record read from container %d alone is %+v", what, k, o, idx, solo[idx][pos[idx]])
+					return r
+				}
+				pos[idx]++
+			}
+		}
 		// (d) independence of the completion order.
 		if oi == 0 {
 			first = out
@@ -291,9 +359,15 @@ func c04Gen(t *rapid.T) C04Case {
 		if rapid.IntRange(0, 9).Draw(t, "unsorted") != 0 {
 			sort.Slice(tss, func(a, b int) bool { return tss[a] < tss[b] })
 		}
+		// each container writes to stdout or to stderr, some to both
+		typ := rapid.SampledFrom([]byte{1, 2}).Draw(t, "stream")
+		mixed := rapid.IntRange(0, 3).Draw(t, "mixed-streams") == 0
 		lines := make([]dl.Line, m)
 		for j := range lines {
-			lines[j] = dl.Line{TS: tss[j], Msg: fmt.Sprintf("c%d#%d", i, j)}
+			lines[j] = dl.Line{TS: tss[j], Msg: fmt.Sprintf("c%d#%d", i, j), Typ: typ}
+			if mixed {
+				lines[j].Typ = rapid.SampledFrom([]byte{1, 2}).Draw(t, "line-stream")
+			}
 		}
 		c.Ctrs = append(c.Ctrs, lines)
 	}
